@@ -160,8 +160,29 @@ func (d dom) ackIDs(fx *fixture) []string {
 	return out
 }
 
+// maskHot: the paths whose handling reads nested request messages (a mask
+// that names them while the message is absent is the usual way to clear a
+// setting)
+var maskHot = map[string]bool{"labels": true, "expiration_policy": true, "message_retention_duration": true, "retry_policy": true, "push_config": true, "filter": true, "dead_letter_policy": true, "enable_message_ordering": true}
+
 func (d dom) mask(known ...string) *fieldmaskpb.FieldMask {
-	switch rapid.IntRange(0, 6).Draw(d.rt, "maskmode") {
+	var hot []string
+	for _, k := range known {
+		if maskHot[k] {
+			hot = append(hot, k)
+		}
+	}
+	switch rapid.IntRange(0, 9).Draw(d.rt, "maskmode") {
+	case 7:
+		return &fieldmaskpb.FieldMask{Paths: []string{rapid.SampledFrom(hot).Draw(d.rt, "mp")}}
+	case 8, 9:
+		var ps []string
+		for _, k := range hot {
+			if rapid.Bool().Draw(d.rt, "mh") {
+				ps = append(ps, k)
+			}
+		}
+		return &fieldmaskpb.FieldMask{Paths: ps}
 	case 0:
 		return nil
 	case 1:
